@@ -131,6 +131,10 @@ class Impl:
         self.finger_distinct = not np.array_equal(self.finger[1], self.finger[2])
         self.exp_model = m          # float32[41] -> float32[41]; inlining it with another argument type raises TypeError at the call
         self.nraise = 0
+        from spox._function import to_function
+        # a function whose body is ill-typed for an int64 argument: the call raises from inside the body's construction
+        self.add_half = to_function("AddHalf", "verif.c16")(lambda a: [op.add(a, op.const(np.array(0.5, np.float32)))])
+        self.add_half(self.x)            # the first call fixes the operator's signature; later calls go through Function.infer_output_types
 
     def reset(self):
         self.Var._operator_dispatcher = self.default_disp
@@ -171,6 +175,8 @@ class Impl:
         if e == 2:
             return 1 // 0
         if e == 3:  # spox's own eager inference error
+            if self.nraise % 4 == 2:                                              # ... raised while a to_function operator builds its BODY
+                return self.add_half(self.i)
             return self.op.add(self.x, self.i) if variant else self.op.matmul(self.x, self.i)
         if e == 4:  # a TypeError raised at the call by spox itself
             if variant == 0:
